@@ -128,8 +128,17 @@ def run_annotate(case, sc):
             wname = "vw_" + f["name"]
             params = [[n, 0, t] for n, _, t in f["params"]]
             call = G.E("call", f["ret"], f["pure"], f["total"], fn=f["name"], args=[G.E("var", t, name=n, bid=0) for n, _, t in params])
+            wbody = [{"k": "let", "name": "verif_m", "bid": 0, "ann": None, "e": G.E("int", G.INT, v=1)}]
+            if params:
+                # a closure (annotated parameter, no return type) that returns a parameter of the enclosing function, which
+                # is printed without a type here: the closure's result type is not known
+                p0, _b, t0 = params[0]
+                wbody.append({"k": "let", "name": "verif_cl_" + f["name"], "bid": 0, "ann": None,
+                              "e": G.E("lambda", ["Fun", [G.INT], t0], True, True, params=[["verif_x", 0, G.INT]], ret=t0, ret_ann=False,
+                                       body=[{"k": "expr", "e": G.E("var", t0, name=p0, bid=0)}])})
+                forced_lets.append("verif_cl_" + f["name"])
             pr["funs"].append({"name": wname, "params": params, "ret": f["ret"], "pure": f["pure"], "total": f["total"],
-                               "body": [{"k": "let", "name": "verif_m", "bid": 0, "ann": None, "e": G.E("int", G.INT, v=1)}, {"k": "expr", "e": call}]})
+                               "body": wbody + [{"k": "expr", "e": call}]})
             use = G.E("call", f["ret"], f["pure"], f["total"], fn=wname, args=[simple[t]() for _, _, t in params])
             pr["main"].append({"k": "expr", "e": G.E("call", G.UNIT, False, f["total"], fn="println", builtin=True,
                                                     args=[G.E("call", G.STR, fn="string_repr", builtin=True, args=[use])])})
@@ -143,7 +152,16 @@ def run_annotate(case, sc):
             for nm, ty in ((lname, ["List", f["ret"]]), (pname, ["Tuple", [G.INT, f["ret"]]])):
                 pr["main"].append({"k": "expr", "e": G.E("call", G.UNIT, False, True, fn="println", builtin=True,
                                                         args=[G.E("call", G.STR, fn="string_repr", builtin=True, args=[G.E("var", ty, name=nm, bid=0)])])})
-            forced_lets.extend([lname, pname])
+            # a closure without a return type whose result comes from such a call: Fun<(Int), ?>
+            cname = "verif_c_" + f["name"]
+            fty = ["Fun", [G.INT], f["ret"]]
+            pr["main"].append({"k": "let", "name": cname, "bid": 0, "ann": None,
+                               "e": G.E("lambda", fty, f["pure"], True, params=[["verif_x", 0, G.INT]], ret=f["ret"], ret_ann=False,
+                                        body=[{"k": "expr", "e": arg()}])})
+            callc = G.E("callv", f["ret"], f["pure"], f["total"], f=G.E("var", fty, name=cname, bid=0), args=[G.E("int", G.INT, v=1)])
+            pr["main"].append({"k": "expr", "e": G.E("call", G.UNIT, False, f["total"], fn="println", builtin=True,
+                                                    args=[G.E("call", G.STR, fn="string_repr", builtin=True, args=[callc])])})
+            forced_lets.extend([lname, pname, cname])
     src, p = printer.print_program(pr, annotate=False)
     path = sc.file(src)
     base = core.run_garden(["run", path], timeout=30, cwd=sc.dir)
